@@ -72,6 +72,25 @@ def scenario_float_after_non_number(batch=False, first=None):
             "scenario": f"float written after {first!r}" + (" (batch)" if batch else "")}
 
 
+def scenario_buffered_value_of_another_register_survives(batch=False):
+    """a successful write of one register must not discard the buffered value of ANOTHER register (names PU1 / PU10 share a prefix)"""
+    from openpectus.engine.hardware import Register, RegisterDirection
+    hw, dec, regs, St = _mk()
+    r1, r10 = Register("PU1", RegisterDirection.Both), Register("PU10", RegisterDirection.Both)
+    w = (lambda v, r: dec.write_batch([v], [r])) if batch else dec.write
+    w(10, r1)
+    w(20, r10)
+    hw.fail = [True, True]
+    w(0, r1)                        # outage: buffered
+    w(0, r10)                       # buffered
+    w(35, r10)                      # connection is back: succeeds; the buffered PU1=0 must still be flushed (now or at the next write)
+    w(36, r10)
+    commanded = {"PU1": 0, "PU10": 36}
+    bad = {n: (hw.mem.get(n), c) for n, c in commanded.items() if not _close(hw.mem.get(n), c)}
+    return {"violated": bool(bad) and dec.state == St.OK, "hardware_vs_commanded": bad, "hardware_write_log": hw.log, "state": str(dec.state),
+            "scenario": "buffered value of PU1 while PU10 is written successfully" + (" (batch)" if batch else "")}
+
+
 def all_scenarios():
     out = []
     for b in (False, True):
